@@ -38,6 +38,7 @@ pub struct Profile {
     pub p_no_pingresp: f64,
     pub p_delay: f64,
     pub p_setid: f64,
+    pub p_stall: f64,
     pub rm: Vec<u16>,
     pub maxpkt: Vec<u32>,
     pub maxqos: Vec<u8>,
@@ -82,6 +83,7 @@ impl Default for Profile {
             p_no_pingresp: 0.2,
             p_delay: 0.0,
             p_setid: 0.0,
+            p_stall: 0.0,
             rm: vec![0, 0, 1, 2, 3, 8, 20],
             maxpkt: vec![0],
             maxqos: vec![2, 2, 2, 1, 0],
@@ -684,7 +686,7 @@ impl Director for RandomDirector {
         let waiting_read = self.last_pending == 'r' && view.inbound_avail == 0;
         if self.last_pending != 'r' || view.inbound_avail > 0 {
             // a stalled link: time passes while a packet is half-written
-            if !self.benign && self.p.time && self.stalls < 3 && self.chance(0.25) {
+            if !self.benign && self.p.time && self.stalls < 3 && self.chance(self.p.p_stall) {
                 self.stalls += 1;
                 return PendDec::Adv(view.now_ms + self.rng.gen_range(1..6000));
             }
@@ -705,6 +707,9 @@ impl Director for RandomDirector {
             if let Some(w) = view.wakes.first().copied() {
                 if w > view.now_ms {
                     to = to.min(w);
+                } else {
+                    // the client's deadline is overdue: it expects to be polled continuously
+                    to = to.min(view.now_ms + self.rng.gen_range(20..250));
                 }
             }
             return PendDec::Adv(to);
@@ -782,7 +787,7 @@ impl Director for RandomDirector {
                 if w <= view.now_ms {
                     // the deadline the client names is already over (it waits for a PINGRESP while
                     // its next ping is due): real time simply goes on
-                    return PendDec::Adv(view.now_ms + self.rng.gen_range(100..1500));
+                    return PendDec::Adv(view.now_ms + self.rng.gen_range(20..250));
                 }
                 if self.idle < 6 || self.cur_op == "conn" {
                     let to = match self.rng.gen_range(0..6) {
